@@ -318,6 +318,9 @@ def coerce(code, frm, to):
             return "(Sum.inl {})".format(code)
         if resolve(to.b) == frm:
             return "(Sum.inr {})".format(code)
+    if isinstance(frm, TBool) and isinstance(to, TInt):
+        # a bool used as a number (bool is a subclass of int: True == 1)
+        return "(if {} = true then (1 : Int) else (0 : Int))".format(code)
     if frm == to or isinstance(frm, TVar) or isinstance(to, TVar):
         unify(frm, to)
         return code
